@@ -92,7 +92,7 @@ func c13e2jobs(tier string) []c13ejob {
 					for _, x := range seq {
 						ops = append(ops, c13op{"set", x})
 					}
-					jobs = append(jobs, c13ejob{d, ops})
+					jobs = append(jobs, c13ejob{d: d, ops: ops})
 					if len(seq) == maxLen {
 						return
 					}
